@@ -261,6 +261,58 @@ func VerifHarness_UnlistenedChannelPassesThrough() {
 	zz.Reach("pass-through")
 }
 
+// Two registrations in a row (the second may repeat the first, be empty, or carry an identifier that
+// does not parse): each one that is forwarded raises its own register event.
+func VerifHarness_EveryForwardedRegistrationRaisesAnEvent() {
+	w := zzC25World(state.Play, state.Play)
+	h := &clientPlaySessionHandler{player: w.player, log: logr.Discard(), log1: logr.Discard()}
+	payloads := []string{"a:b", "a:b\x00c:d", "c:d", "", "not a channel!", "a:b\x00a:b"}
+	for i := 0; i < 2; i++ {
+		h.handlePluginMessage(&plugin.Message{Channel: "minecraft:register", Data: []byte(payloads[zz.Choose(len(payloads))])})
+		regs, _ := zzCountEvents[*PlayerChannelRegisterEvent](w.ev)
+		zz.Assert(len(zzPluginPackets(w.backend)) == i+1, "a registration was not forwarded to the backend")
+		zz.Assert(regs == i+1, "a channel registration forwarded to the backend did not raise exactly one channel-register event")
+	}
+	zz.Reach("two-registrations")
+}
+
+// Two messages in a row in the same direction, with a handler that keeps the events: each event keeps
+// exposing its own body, and each forwarded packet keeps carrying it, after the next message was handled.
+func VerifHarness_EventsKeepTheirOwnBody() {
+	zz.MaxLen(3)
+	w := zzC25World(state.Play, state.Play)
+	var kept []*PluginMessageEvent
+	w.ev.onFire = func(e event.Event) {
+		if pme, ok := e.(*PluginMessageEvent); ok {
+			kept = append(kept, pme)
+			pme.SetForward(true)
+		}
+	}
+	bodies := [][]byte{zz.Bytes(1 + zz.Choose(3)), zz.Bytes(1 + zz.Choose(3))}
+	toClient := zz.Bool()
+	cph := &clientPlaySessionHandler{player: w.player, log: logr.Discard(), log1: logr.Discard()}
+	bph := &backendPlaySessionHandler{serverConn: w.server, bungeeCordMessageResponder: bungeecord.NopMessageResponder, log: logr.Discard()}
+	out := w.backend
+	if toClient {
+		out = w.client
+	}
+	for _, b := range bodies {
+		p := &plugin.Message{Channel: "my:chan", Data: append([]byte(nil), b...)}
+		if toClient {
+			bph.handlePluginMessage(p, &proto.PacketContext{Direction: proto.ClientBound, Protocol: 767, PacketID: 0x19, Packet: p, Payload: zzRaw("my:chan", b)})
+		} else {
+			cph.handlePluginMessage(p)
+		}
+	}
+	sent := zzPluginPackets(out)
+	zz.Assert(len(kept) == 2 && len(sent) == 2, "two messages did not raise two events and two forwarded packets")
+	for i, b := range bodies {
+		zz.Assert(bytes.Equal(kept[i].Data(), b), "an event no longer exposes its own message body after the next message was handled")
+		zz.Assert(bytes.Equal(sent[i].Data, b), "a forwarded message no longer carries its own body after the next message was handled")
+	}
+	zz.Reach("two-messages")
+}
+
 func VerifMutant_PluginEvents() {
 	w := zzC25World(state.Play, state.Play)
 	(&clientPlaySessionHandler{player: w.player, log: logr.Discard(), log1: logr.Discard()}).handlePluginMessage(&plugin.Message{Channel: "my:chan", Data: []byte{1}})
